@@ -272,6 +272,7 @@ class Play:
             # the definition is valid by construction: nothing else may escape from the constructor
             raise Fail("construction-failed", f"construction of {name} raised {type(e).__name__}: {e}")
         ctx.sm = sm
+        self.sync_attr_guards(ctx, [k for k in Hh.attr_guards if k in Hh.val])  # (until now the attributes held None)
         ctx.model = mk.get("model") if mk.get("model_given") else Hh.objs.get("model")
         # names that resolve to properties/attributes are read once at registration to see whether they are
         # callable: those reads are not guard evaluations
@@ -308,12 +309,19 @@ class Play:
     def set_val(self, ctx, upd):
         for k, v in upd.items():
             ctx.H.val[k] = v
-            prov = k.split("@")[-1]
-            name = k.split("@")[0]
-            o = ctx.H.objs.get(prov) if hasattr(ctx.H, "objs") else None
-            if o is not None and name in getattr(ctx.H, "attr_guards", ()):  # plain attribute guards live on the object
-                setattr(o, name, v)
+        self.sync_attr_guards(ctx, upd)
         ctx.interp.val = dict(ctx.H.val)
+
+    def sync_attr_guards(self, ctx, keys):
+        """guards that are plain data attributes live on the provider object itself"""
+        if ctx.sm is None:
+            return
+        for k in keys:
+            if k in ctx.H.attr_guards:
+                name, prov = k.split("@")
+                o = ctx.sm if prov == "machine" else ctx.H.objs.get(prov)
+                if o is not None:
+                    setattr(o, name, ctx.H.val.get(k))
 
     def set_fault(self, ctx, fault):
         if fault and len(fault) > 2 and fault[2] == "guard":
